@@ -21,6 +21,7 @@ type Opts struct {
 	TargetRaw       string        `json:"targetRaw,omitempty"`       // with TargetOpt "raw": cwd is the jail's target and this string is passed to WithTargetDir
 	PassEmptyTarget bool          `json:"passEmptyTarget,omitempty"` // pass WithTargetDir("") like the command line does when the flag is absent
 	EarlyOpts       bool          `json:"earlyOpts,omitempty"`       // the option values are constructed while the working directory is "/", the call runs in the case's own working directory
+	Color           bool          `json:"color,omitempty"`           // the call runs with colours enabled (fatih/color.NoColor == false), as when standard output is a terminal
 }
 
 // AddStep is one Add call of a From-Root build program: node[i+1] = node[P].Add(N); node[0] is the root.
@@ -58,7 +59,7 @@ type Faults struct {
 	ReaderBlock    int  `json:"readerBlock,omitempty"` // k>0: after k-1 bytes the reader delivers nothing more and its Read blocks (an idle pipe) until the call under test has returned
 	CbErrKind      int  `json:"cbErrKind,omitempty"`   // which value the failing callback returns (see CallbackErr); 8 in massive mode: the callback calls runtime.Goexit instead of returning
 	CbNested       bool `json:"cbNested,omitempty"`    // From-Root walks: the first callback makes a massive-mode OutputFromRoot call on the same tree
-	IOKind         int  `json:"ioKind,omitempty"`      // 1: the reader also implements io.WriterTo and the writer io.StringWriter (code may take other paths for them); 2: the reader is also an io.Closer; 3: a *bytes.Reader; 4: an open regular file; 5: a *bufio.Reader around the fault-injecting reader; 7: a *bytes.Buffer; 6: an empty regular file opened write-only (Read fails with EBADF); 8/9: a *bytes.Reader / regular file positioned behind an earlier (hostile) section the caller has already consumed
+	IOKind         int  `json:"ioKind,omitempty"`      // 1: the reader also implements io.WriterTo and the writer io.StringWriter (code may take other paths for them); 2: the reader is also an io.Closer; 3: a *bytes.Reader; 4: an open regular file; 5: a *bufio.Reader around the fault-injecting reader; 7: a *bytes.Buffer; 10: the WRITER is a terminal (slave side of a pseudo terminal, output taken from the master side); 6: an empty regular file opened write-only (Read fails with EBADF); 8/9: a *bytes.Reader / regular file positioned behind an earlier (hostile) section the caller has already consumed
 	ErrKind        int  `json:"errKind,omitempty"`     // which well-known error the injected reader/writer error additionally wraps (see FaultErr)
 }
 
